@@ -216,7 +216,10 @@ class CallMixin:
                 yield from self.inline_closure(p, args, kwargs, st, exits, e)
                 return
             if isinstance(p, FuncRef):
-                yield from self.call_func(p, None, args, kwargs, st, exits, e)
+                self_v = None
+                if p.cls is not None and p.qualname.split('.')[-1] in p.cls.classmethods:
+                    self_v = V(CLS, p.cls)
+                yield from self.call_func(p, self_v, args, kwargs, st, exits, e)
                 return
             if isinstance(p, SpecFn):
                 yield st, self.spec_apply(p, args, st)
@@ -544,9 +547,11 @@ class CallMixin:
                     st.assume(res.t != null())
             cenv['result'] = res
             for en in c.ensures:
+                if 'arg_of(' in en:
+                    continue      # clauses about the callee's own calls are checked in the callee, not exported
                 st.assume(self.ev_spec(en, st, old=pre))
             st.env = caller_env
-            if self.feasible(st):
+            if self.spec_mode or self.feasible(st):
                 yield st, res
         finally:
             st.env = caller_env
